@@ -64,6 +64,16 @@ func mixTokens(m map[key]ent, mix []string) ([]mtok, bool) {
 	// shape restriction (see above)
 	for k, t := range out {
 		if t.operand != nil {
+			// N(b,c,d) directly after a complete term is not one operand: if N is an infix operator the text reads
+			// as "term N (b,c,d)" - the operator followed by a bracketed term. It must stand in operand position.
+			if t.operand.K == rt.Comp && k > 0 {
+				pv := out[k-1]
+				_, pvPre := m[key{pv.name, 0}]
+				_, pvIn := m[key{pv.name, 2}]
+				if pv.operand != nil || !(pvPre || pvIn) {
+					return nil, false
+				}
+			}
 			continue
 		}
 		_, pre := m[key{t.name, 0}]
